@@ -32,7 +32,7 @@ pub fn check(id: &str, tier: &str, seed: u64) -> Option<i32> {
                     }
                     serde_json::to_value(&c).unwrap_or(json!(null))
                 },
-                120_000,
+                600_000,
             );
             Some(finish_generic(
                 "C12",
@@ -58,7 +58,7 @@ pub fn check(id: &str, tier: &str, seed: u64) -> Option<i32> {
                 crate::fifo::nontrivial,
                 &[],
                 |c: &crate::fifo::FifoCase| serde_json::to_value(c).unwrap_or(json!(null)),
-                120_000,
+                600_000,
             );
             Some(finish_generic(
                 "C19",
@@ -66,7 +66,7 @@ pub fn check(id: &str, tier: &str, seed: u64) -> Option<i32> {
                 tier,
                 seed,
                 "exploration",
-                "append-only histories with strictly increasing keys on standard and blob trees: flushes of 1-5 new keys with the harness-owned virtual clock (clock_gettime interposition) advanced 0-40 s between them, then compact(Fifo(limit, ttl)) with limit drawn around the current on-disk size (0, half, exactly, +1, minus the smallest table, MAX) and ttl in {None, 0, 1 s, oldest age, half of it, beyond it, 60 s}; repeated; reopen. Oracle: no table is created; no removed table is newer than a retained one unless it had certainly exceeded the TTL (clock read before the call); nothing is removed when nothing can have exceeded the TTL (clock read after the call) and the actual on-disk bytes (an upper bound of the strategy's own measure) are within the limit; every key of every retained table reads its value after every step and after reopen; len() equals the number of retained keys. Non-trivial = a FIFO call removed some tables and retained others. Distinct = hash of the case.",
+                "append-only histories with strictly monotonic keys (increasing in half of the cases, decreasing in the other half - both are the documented FIFO use) on standard and blob trees: flushes of 1-5 new keys with the harness-owned virtual clock (clock_gettime interposition) advanced 0-40 s between them, then compact(Fifo(limit, ttl)) with limit drawn around the current on-disk size (0, half, exactly, +1, minus the smallest table, MAX) and ttl in {None, 0, 1 s, oldest age, half of it, beyond it, 60 s}; repeated; reopen. Oracle: no table is created; no removed table is newer than a retained one unless it had certainly exceeded the TTL (clock read before the call); nothing is removed when nothing can have exceeded the TTL (clock read after the call) and the actual on-disk bytes (an upper bound of the strategy's own measure) are within the limit; every key of every retained table reads its value after every step and after reopen; len() equals the number of retained keys. Non-trivial = a FIFO call removed some tables and retained others. Distinct = hash of the case.",
                 &["FIFO is used as documented: new keys only, monotonic order, no other compaction (choose() asserts a disjoint idle L0)", "bounded sizes; not a proof"],
                 out,
                 json!({}),
@@ -163,18 +163,24 @@ pub fn check(id: &str, tier: &str, seed: u64) -> Option<i32> {
                 .filter(|(k, _)| k.starts_with("region."))
                 .map(|(k, v)| (k.clone(), json!(v)))
                 .collect();
-            Some(finish_generic(
+            let code = finish_generic(
                 "C10",
                 "corruption",
                 tier,
                 seed,
                 "fault_enumeration",
-                "small generated histories (3-15 ops, generated Config incl. partitioned index/filter, lz4, blob tree, ingestion with non-zero global seqno) produce a closed directory D. ENUMERATED per directory: for every file every byte position (quick: all positions of files <= 1 KiB - always `current` and the version file - and for larger files the first/last 64 bytes, every sfa section boundary and a stratified sample of 200 positions; thorough: every position) x XOR masks {0x01, 0x80, 0xFF}, plus truncations {0, 1, half, len-1, every section boundary, 8 random}. Each fault is applied to a fresh copy of D; an isolated worker process (RLIMIT_AS 4 GiB, 30 s watchdog, fresh cache and descriptor table) opens it and repeats the reference reads (table_count, persisted seqno, get of every pool key and absent probe at MAX and at the recorded visible seqno, full scans at both). Oracle: open and every read individually return exactly the reference answer or Err. A panic/abort of the worker is counted as a loud failure (tallied separately), not as a violation; a hang is exit 2. evaluations = directories; faults in coverage.faults; per-region fault counts in coverage.regions. Non-trivial = a non-empty directory on which at least one fault was detected (Err). Distinct = hash of the case.",
+                "small generated histories (3-15 ops, generated Config incl. partitioned index/filter, lz4, blob tree, ingestion with non-zero global seqno) produce a closed directory D. ENUMERATED per directory: for every file every byte position (quick: all positions of files <= 1 KiB - always `current` and the version file - and for larger files the first/last 64 bytes, every sfa section boundary and a stratified sample of 200 positions; thorough: every position) x XOR masks {0x01, 0x80, 0xFF}, plus truncations {0, 1, half, len-1, every section boundary, 8 random}. Each fault is applied to a fresh copy of D; an isolated worker process (RLIMIT_AS 4 GiB, 20 s watchdog per fault, fresh cache and descriptor table) opens it and repeats the reference reads (table_count, persisted seqno, get of every pool key and absent probe at MAX and at the recorded visible seqno, full scans at both). Oracle: open and every read individually return exactly the reference answer or Err. A panic/abort of the worker is counted as a loud failure (tallied separately), not as a violation; a hang is counted, the enumeration continues behind it (at most 4 hangs per directory) and the run ends with exit 2 unless a violation was found. evaluations = directories; faults in coverage.faults; per-region fault counts in coverage.regions. Non-trivial = a non-empty directory on which at least one fault was detected (Err). Distinct = hash of the case.",
                 &["a panic or abort on corrupted input counts as 'reported' (nothing is served); only silently different data is a violation", "single fault per copy; bit flips and truncations only", "bounded sizes; not a proof"],
                 out,
                 json!({"faults": faults, "regions": regions}),
                 vec![],
-            ))
+            );
+            let hangs = crate::corrupt::hangs();
+            if code == 0 && !hangs.is_empty() {
+                println!("WATCHDOG: C10 worker exceeded its 20 s budget on {} fault(s), first: {} (inconclusive)", hangs.len(), hangs[0]);
+                return Some(2);
+            }
+            Some(code)
         }
         "C06" => {
             let cases = if thorough { 80_000 } else { 8000 };
@@ -187,7 +193,7 @@ pub fn check(id: &str, tier: &str, seed: u64) -> Option<i32> {
                 crate::sched::nontrivial,
                 &crate::runner::load_known("C06"),
                 |c: &crate::sched::SchedCase| serde_json::to_value(c).unwrap_or(json!(null)),
-                300_000,
+                600_000,
             );
             let mut code = 0;
             let traces = out.hist.keys().filter(|k| k.starts_with("trace.")).count();
@@ -205,7 +211,7 @@ pub fn check(id: &str, tier: &str, seed: u64) -> Option<i32> {
                     |_s: &crate::exec::Stats| true,
                     &[],
                     |c: &crate::sched::SchedCase| serde_json::to_value(c).unwrap_or(json!(null)),
-                    300_000,
+                    600_000,
                 );
                 extra["stress_iterations"] = json!(st.evaluations);
                 if let Some((case, f)) = &st.failure {
@@ -233,15 +239,15 @@ pub fn check(id: &str, tier: &str, seed: u64) -> Option<i32> {
     }
 }
 
-/// C20 thorough stage 2: the directories left by crashes must satisfy the reclamation clause after
-/// one reopen. Returns (exit code, coverage additions).
+/// C20 stage 2: the directories left by crashes and by failed operations must satisfy the
+/// reclamation clause after one reopen. Returns (exit code, coverage additions).
 #[cfg(feature = "shim")]
-pub fn c20_crash_stage(seed: u64) -> (i32, serde_json::Value) {
+pub fn c20_crash_stage(seed: u64, thorough: bool) -> (i32, serde_json::Value) {
     let mut g = crash_profile();
-    g.max_ops = 30;
+    g.max_ops = if thorough { 30 } else { 22 };
     let out = explore_generic(
         || crate::gen::case(&g),
-        1200,
+        if thorough { 1200 } else { 160 },
         seed ^ 0xC20,
         200,
         |c: &crate::spec::Case| {
@@ -267,10 +273,41 @@ pub fn c20_crash_stage(seed: u64) -> (i32, serde_json::Value) {
             println!("NOTE: the C20 crash-image stage hit a failure that belongs to C05, not C20: {}", f.what);
         }
     }
-    (
-        code,
-        json!({"crash_image_stage": {"histories": out.evaluations, "images_reopened_and_listed": images}}),
-    )
+    let mut cov = json!({"crash_image_stage": {"histories": out.evaluations, "images_reopened_and_listed": images}});
+    if code == 0 {
+        let mut g = crash_profile();
+        g.max_ops = if thorough { 25 } else { 14 };
+        g.w.reopen = 1;
+        let out = explore_generic(
+            || crate::fault::strategy(&g),
+            if thorough { 2400 } else { 320 },
+            seed ^ 0xC2016,
+            80,
+            |c: &crate::spec::Case| {
+                crate::crash::set_reclaim_check(true);
+                let r = crate::fault::run(c, false);
+                crate::crash::set_reclaim_check(false);
+                r
+            },
+            crate::fault::nontrivial,
+            &crate::runner::load_known("C20"),
+            crate::runner::summarize_case,
+            900_000,
+        );
+        let inj = out.hist.get("fault.injected").copied().unwrap_or(0);
+        if let Some((case, f)) = &out.failure {
+            if f.what.contains("[C20]") {
+                let p = crate::generic::write_replay_generic("C20", "fault-reclaim", case, f, json!({"stage": "failed operations"}));
+                println!("FAILURE property=C20 : {}", f.what);
+                println!("VIOLATION property=C20 replay={}", p.display());
+                code = 1;
+            } else {
+                println!("NOTE: the C20 failed-operation stage hit a failure that belongs to C16, not C20: {}", f.what);
+            }
+        }
+        cov["failed_operation_stage"] = json!({"histories": out.evaluations, "faults_injected_then_reopened_and_listed": inj});
+    }
+    (code, cov)
 }
 
 fn crash_profile() -> crate::gen::GenProfile {
@@ -304,6 +341,7 @@ fn crash_profile() -> crate::gen::GenProfile {
         tiny: true,
         big_values: false,
         big_pool_pct: 0,
+        dense_pct: 0,
     }
 }
 
@@ -336,6 +374,14 @@ pub fn replay(id: &str, path: &Path) -> Option<i32> {
         "C05" => {
             let case: crate::spec::Case = serde_json::from_value(v["case"].clone()).ok()?;
             Some(report(crate::crash::run(&case, true)))
+        }
+        #[cfg(feature = "shim")]
+        "C20" if v["kind"] == "fault-reclaim" => {
+            let case: crate::spec::Case = serde_json::from_value(v["case"].clone()).ok()?;
+            crate::crash::set_reclaim_check(true);
+            let r = crate::fault::run(&case, false);
+            crate::crash::set_reclaim_check(false);
+            Some(report(r))
         }
         #[cfg(feature = "shim")]
         "C20" if v["kind"] == "crash-reclaim" => {
